@@ -66,32 +66,55 @@ package xmss
 // ---- hash.go ----
 
 //@ func coreHash
+//@   props C06
 //@   requires n == 32 && keyLen <= 96 && len(key) >= keyLen && len(in) >= inLen && inLen + n + keyLen <= 4294967295
+//@   exit[XF] len(buf) == 32 + keyLen + inLen && forall d :: 0 <= d && d < 32 + keyLen + inLen ==> buf[d] == spec.corein(typeValue, spec.sub(key, keyLen), keyLen, spec.sub(in, inLen), inLen)[d]
+//@   ensures[XF] hashFunction == 1 || hashFunction == 2 ==> forall q :: 0 <= q && q < len(out) ==> out[q] == spec.xhash(hashFunction, spec.corein(typeValue, spec.sub(key, keyLen), keyLen, spec.sub(in, inLen), inLen), 32 + keyLen + inLen, q)
+//@   ensures[XF] hashFunction == 0 ==> forall q :: 0 <= q && q < len(out) && q < 32 ==> out[q] == spec.xhash(hashFunction, spec.corein(typeValue, spec.sub(key, keyLen), keyLen, spec.sub(in, inLen), inLen), 32 + keyLen + inLen, q)
+//@   ensures[XF] hashFunction > 2 ==> forall q :: 0 <= q && q < len(out) ==> out[q] == old(out[q])
 //@   assigns out
 //@   loop 1 invariant 0 <= i && i <= keyLen
+//@   loop 1 invariant[XF] (forall d :: 0 <= d && d < 32 ==> buf[d] == spec.byte32(typeValue, 31-d)) && forall k_ :: 0 <= k_ && k_ < i ==> buf[32+k_] == key[k_]
 //@   loop 2 invariant 0 <= i && i <= inLen
+//@   loop 2 invariant[XF] (forall d :: 0 <= d && d < 32 ==> buf[d] == spec.byte32(typeValue, 31-d)) && (forall k_ :: 0 <= k_ && k_ < keyLen ==> buf[32+k_] == key[k_]) && forall k_ :: 0 <= k_ && k_ < i ==> buf[32+keyLen+k_] == in[k_]
 
 //@ func prf
+//@   props C06
 //@   requires keyLen == 32 && len(key) >= 32 && len(in) >= 32
+//@   ensures[XF] hashFunction <= 2 ==> forall q :: 0 <= q && q < len(out) && q < 32 ==> out[q] == spec.prfArr(hashFunction, spec.sub(key, 32), spec.sub(in, 32))[q]
 //@   assigns out
 
+//@ pred prfAddr(hf, pubSeed, a, km) := spec.prfArr(hf, spec.sub(pubSeed, 32), spec.addrBytes(store(arr(a), 7, km)))
+
 //@ func hashH
+//@   props C06
 //@   alias in out
 //@   requires n == 32 && len(in) >= 64 && len(pubSeed) >= 32
 //@   ensures forall k_ :: 0 <= k_ && k_ < 7 ==> addr[k_] == old(addr[k_])
+//@   exit[XF] forall d :: 0 <= d && d < 32 ==> key[d] == old(prfAddr(hashFunction, pubSeed, addr, 0))[d] || hashFunction > 2
+//@   exit[XF] forall d :: 0 <= d && d < 64 ==> buf[d] == spec.xorArr(spec.sub(old(in), 64), spec.cat(old(prfAddr(hashFunction, pubSeed, addr, 1)), 32, old(prfAddr(hashFunction, pubSeed, addr, 2)), 32), 64)[d] || hashFunction > 2
+//@   ensures[XF] hashFunction <= 2 ==> forall q :: 0 <= q && q < len(out) && q < 32 ==> out[q] == spec.xhash(hashFunction, spec.corein(1, old(prfAddr(hashFunction, pubSeed, addr, 0)), 32, spec.xorArr(spec.sub(old(in), 64), spec.cat(old(prfAddr(hashFunction, pubSeed, addr, 1)), 32, old(prfAddr(hashFunction, pubSeed, addr, 2)), 32), 64), 64), 128, q)
 //@   assigns out, *addr
 //@   loop 1 invariant 0 <= i && i <= 2*n
+//@   loop 1 invariant[XF] forall d :: 0 <= d && d < i ==> buf[d] == spec.bxor(in[d], bitMask[d])
 
 //@ func hashF
+//@   props C06
 //@   alias in out
 //@   requires n == 32 && len(in) >= 32 && len(pubSeed) >= 32
 //@   ensures forall k_ :: 0 <= k_ && k_ < 7 ==> addr[k_] == old(addr[k_])
+//@   exit[XF] forall d :: 0 <= d && d < 32 ==> key[d] == old(prfAddr(hashFunction, pubSeed, addr, 0))[d] || hashFunction > 2
+//@   exit[XF] forall d :: 0 <= d && d < 32 ==> buf[d] == spec.xorArr(spec.sub(old(in), 32), old(prfAddr(hashFunction, pubSeed, addr, 1)), 32)[d] || hashFunction > 2
+//@   ensures[XF] hashFunction <= 2 ==> forall q :: 0 <= q && q < len(out) && q < 32 ==> out[q] == spec.xhash(hashFunction, spec.corein(0, old(prfAddr(hashFunction, pubSeed, addr, 0)), 32, spec.xorArr(spec.sub(old(in), 32), old(prfAddr(hashFunction, pubSeed, addr, 1)), 32), 32), 96, q)
 //@   assigns out, *addr
 //@   loop 1 invariant 0 <= i && i <= n
+//@   loop 1 invariant[XF] forall d :: 0 <= d && d < i ==> buf[d] == spec.bxor(in[d], bitMask[d])
 
 //@ func hMsg
+//@   props C06
 //@   requires n == 32 && len(key) <= 4096
 //@   ensures iserr(result) <==> (len(key) != 3*n || len(in) + n + len(key) > 4294967295)
+//@   ensures[XF] !iserr(result) && hashFunction <= 2 ==> forall q :: 0 <= q && q < len(out) && q < 32 ==> out[q] == spec.xhash(hashFunction, spec.corein(2, spec.sub(key, 96), 96, spec.sub(in, len(in)), len(in)), 128 + len(in), q)
 //@   assigns out
 
 // ---- WOTS / L-tree / authentication path (verification side) ----
@@ -116,34 +139,47 @@ package xmss
 
 //@ func wotsPKFromSig
 //@   requires wotsOK(wotsParams) && len(pk) >= wotsParams.keySize && len(sig) >= wotsParams.keySize && len(msg) >= 32 && len(pubSeed) >= 32
+//@   ensures forall k_ :: 0 <= k_ && k_ < 5 ==> addr[k_] == old(addr[k_])
 //@   assigns pk, *addr
 //@   loop 1 invariant 0 <= i && i <= XMSSWOTSLEN1
 //@   loop 2 invariant 0 <= i && i <= XMSSWOTSLEN2
 //@   loop 2 invariant forall k_ :: 0 <= k_ && k_ < XMSSWOTSLEN1 + i ==> baseW[k_] <= XMSSWOTSW - 1
-//@   loop 3 invariant 0 <= i && i <= XMSSWOTSLEN
+//@   loop 3 invariant 0 <= i && i <= XMSSWOTSLEN && forall k_ :: 0 <= k_ && k_ < 5 ==> addr[k_] == old(addr[k_])
 //@   loop 3 invariant forall k_ :: 0 <= k_ && k_ < XMSSWOTSLEN ==> baseW[k_] <= XMSSWOTSW - 1
 
 //@ func lTree
 //@   requires wotsOK(params) && len(wotsPK) >= params.keySize && len(leaf) >= 32 && len(pubSeed) >= 32
+//@   ensures forall k_ :: 0 <= k_ && k_ < 5 ==> addr[k_] == old(addr[k_])
 //@   assigns leaf[0:32], wotsPK, *addr
-//@   loop 1 invariant 1 <= l && l <= params.len && n == 32
+//@   loop 1 invariant 1 <= l && l <= params.len && n == 32 && forall k_ :: 0 <= k_ && k_ < 5 ==> addr[k_] == old(addr[k_])
 //@   loop 1 decreases l
-//@   loop 2 invariant 0 <= i && i <= bound && bound == l / 2
+//@   loop 2 invariant 0 <= i && i <= bound && bound == l / 2 && forall k_ :: 0 <= k_ && k_ < 5 ==> addr[k_] == old(addr[k_])
 
 //@ func validateAuthPath
 //@   requires n == 32 && 1 <= h && h <= 30 && len(root) >= 32 && len(leaf) >= 32 && len(authpath) >= h*32 && len(pub_seed) >= 32
+//@   ensures forall k_ :: 0 <= k_ && k_ < 5 ==> addr[k_] == old(addr[k_])
 //@   assigns root[0:32], *addr
 //@   loop 1 invariant 0 <= j && j <= n
 //@   loop 2 invariant 0 <= j && j <= n
 //@   loop 3 invariant 0 <= j && j <= n
 //@   loop 4 invariant 0 <= j && j <= n
-//@   loop 5 invariant 0 <= i && i <= h - 1 && authPathOffset == (i+1)*n
+//@   loop 5 invariant 0 <= i && i <= h - 1 && authPathOffset == (i+1)*n && forall k_ :: 0 <= k_ && k_ < 5 ==> addr[k_] == old(addr[k_])
 //@   loop 6 invariant 0 <= j && j <= n
 //@   loop 7 invariant 0 <= j && j <= n
 
 //@ func xmssVerifySig
+//@   props C04
+//@   pure
 //@   requires wotsOK(wotsParams) && len(pk) == 64 && 1 <= h && h <= 30 && len(sigMsg) >= 36 + wotsParams.keySize + 32*h
+//@   exit[C04] result <==> (len(msg) + 128 <= 4294967295 && forall k_ :: 0 <= k_ && k_ < 32 ==> root[k_] == pk[k_])
+//@   exit[C04] idx == idxOf(sigMsg) && pubSeed[0:32] == pk[32:64]
+//@   exit[C04] hashKey[0:32] == sigMsg[4:36] && hashKey[32:64] == pk[0:32] && forall d :: 0 <= d && d < 32 ==> hashKey[64+d] == spec.byte32(idx, 31-d)
+//@   exit[C04] result ==> otsAddr[0] == 0 && otsAddr[1] == 0 && otsAddr[2] == 0 && otsAddr[3] == 0 && otsAddr[4] == idx
+//@   exit[C04] result ==> lTreeAddr[0] == 0 && lTreeAddr[1] == 0 && lTreeAddr[2] == 0 && lTreeAddr[3] == 1 && lTreeAddr[4] == idx
+//@   exit[C04] result ==> nodeAddr[0] == 0 && nodeAddr[1] == 0 && nodeAddr[2] == 0 && nodeAddr[3] == 2
+//@   exit[C04] result ==> sigMsgOffset == 36 + wotsParams.keySize && n == 32
 //@   loop 1 invariant 0 <= i && i <= n
+//@   loop 1 invariant[C04] forall k_ :: 0 <= k_ && k_ < i ==> root[k_] == pk[k_]
 
 //@ func getHeightFromSigSize
 //@   requires wotsParamW == 4 || wotsParamW == 16 || wotsParamW == 256
@@ -152,7 +188,11 @@ package xmss
 
 //@ func VerifyWithCustomWOTSParamW
 //@   props C14 C04 C06 C15 C16
+//@   pure
 //@   requires wotsParamW == 4 || wotsParamW == 16 || wotsParamW == 256
+//@   ensures[C04] result ==> extendedPK[0] % 16 <= 2
+//@   ensures[C04] result ==> 2 * (extendedPK[1] % 16) >= 4 && len(signature) % 4294967296 == 36 + spec.wotsKeySize(wotsParamW) + 32 * 2 * (extendedPK[1] % 16)
+//@   exit[C04] result == purefn("xmss.xmssVerifySig", "r0", hashFunction, params.wotsParams, message, signature, extendedPK[3:67], height) && hashFunction == extendedPK[0] % 16 && height == 2 * (extendedPK[1] % 16) && wotsOK(params.wotsParams) && params.wotsParams.w == wotsParamW
 //@   panics "invalid signature size. Height<=254"
 //@   panics "invalid signature type"
 //@   panics "Invalid signature size"
@@ -161,6 +201,7 @@ package xmss
 //@ func Verify
 //@   props C14 C04 C06 C15 C16
 //@   pure
+//@   ensures[C06,C04] result == purefn("xmss.VerifyWithCustomWOTSParamW", "r0", message, signature, extendedPK, 16)
 //@   panics "invalid signature size. Height<=254"
 //@   panics "invalid signature type"
 //@   panics "Invalid signature size"
@@ -230,14 +271,19 @@ package xmss
 //@   assigns bdsAll(bdsState)
 
 //@ func getSeed
+//@   props C06
 //@   requires n == 32 && len(skSeed) >= 32
+//@   ensures[XF] hashFunction <= 2 ==> forall q :: 0 <= q && q < len(seed) && q < 32 ==> seed[q] == spec.prfArr(hashFunction, spec.sub(skSeed, 32), spec.addrBytes(store(store(store(arr(old(addr)), 5, 0), 6, 0), 7, 0)))[q]
 //@   ensures addr[0] == old(addr[0]) && addr[1] == old(addr[1]) && addr[2] == old(addr[2]) && addr[3] == old(addr[3]) && addr[4] == old(addr[4])
 //@   assigns seed, *addr
 
 //@ func expandSeed
+//@   props C06
 //@   requires n == 32 && len <= 133 && len(outSeeds) >= len*n && len(inSeeds) >= 32
-//@   assigns outSeeds
+//@   ensures[XF] hashFunction <= 2 ==> forall i_, q :: 0 <= i_ && i_ < len && 0 <= q && q < 32 ==> outSeeds[32*i_+q] == spec.prfArr(hashFunction, spec.sub(inSeeds, 32), spec.toByte32(i_))[q]
+//@   assigns outSeeds[0:len*n]
 //@   loop 1 invariant 0 <= i && i <= len
+//@   loop 1 invariant[XF] hashFunction <= 2 ==> forall i_, q :: 0 <= i_ && i_ < i && 0 <= q && q < 32 ==> outSeeds[32*i_+q] == spec.prfArr(hashFunction, spec.sub(inSeeds, 32), spec.toByte32(i_))[q]
 
 //@ func wotsSign
 //@   requires wotsOK(params) && len(sig) >= params.keySize && len(msg) >= 32 && len(sk) >= 32 && len(pubSeed) >= 32
@@ -263,6 +309,8 @@ package xmss
 //@   props C02 C08 C09 C06
 //@   requires paramsOK(xmssParams) && len(pk) == 64 && len(sk) == 132 && bdsShape(bdsState, xmssParams.h)
 //@   ensures idxOf(sk) == 0
+//@   ensures[C06] forall q :: 0 <= q && q < 96 ==> sk[4+q] == spec.shake(256, spec.sub(seed[0:], 48), 48, q)
+//@   ensures[C06] pk[32:64] == sk[68:100] && sk[100:132] == pk[0:32]
 //@   assigns pk, sk, bdsAll(bdsState)
 
 //@ func xmssFastUpdate
@@ -279,8 +327,14 @@ package xmss
 //@   requires paramsOK(params) && len(sk) == 132 && bdsShape(bdsState, params.h) && idxOf(sk) < spec.pow2(params.h)
 //@   ensures idxOf(sk) == old(idxOf(sk)) + 1
 //@   ensures !iserr(result1) ==> len(result0) == 2180 + 32*params.h && idxOf(result0) == old(idxOf(sk))
+//@   exit[C06,C01] !iserr(result1) && hashFunction <= 2 ==> forall q :: 0 <= q && q < 32 ==> R[q] == spec.prfArr(hashFunction, spec.sub(old(sk[36:]), 32), spec.toByte32(idx))[q]
+//@   exit[C06,C01] !iserr(result1) ==> hashKey[0:32] == R[0:32] && hashKey[32:64] == old(sk[100:132]) && forall d :: 0 <= d && d < 32 ==> hashKey[64+d] == spec.byte32(idx, 31-d)
+//@   exit[C06,C01] !iserr(result1) ==> result0[4:36] == R[0:32] && idx == old(idxOf(sk))
+//@   exit[C06,C01,C08] !iserr(result1) ==> result0[36+params.wotsParams.keySize:36+params.wotsParams.keySize+32*params.h] == old(bdsState.auth[0:32*params.h])
+//@   exit[C06,C01] !iserr(result1) ==> skSeed[0:32] == old(sk[4:36]) && pubSeed[0:32] == old(sk[68:100])
 //@   assigns sk[0:4], bdsAll(bdsState)
 //@   loop 1 invariant 0 <= i && i <= n && n == 32 && idxOf(sigMsg) == idx
+//@   loop 1 invariant[C06,C01] forall k_ :: 0 <= k_ && k_ < i ==> sigMsg[4+k_] == R[k_]
 
 //@ func initializeTree
 //@   props C02 C08 C09
@@ -384,3 +438,5 @@ package xmss
 //@   requires paramsOK(params) && len(sk) == 132 && bdsShape(bds, params.h) && idxOf(sk) < spec.pow2(params.h)
 //@   ensures[C08] sk[0:132] == old(sk[0:132]) && bdsEq(bds, old(bds))
 //@   assigns sk[0:4], bdsAll(bds)
+
+// ---- C04: what Verify accepts ----
